@@ -3,7 +3,7 @@
 //
 // payload := FL flags HIER QUERY
 //   flags : 1 = some reference is reflected, 2 = some reference has a negative magnification,
-//           4 = some FlexPath element has a non-zero offset   (read by checks/c06.py to name finding F7)
+//           4 = some FlexPath element has a non-zero offset   (read by checks/c06.py to recognise a regression of finding F7)
 //   HIER  := H ncells { C nel ELEM^nel nref REF^nref }^ncells          (cell ids 0..ncells-1, 0 = top)
 //   ELEM  := P tag REP n (x y)^n
 //          | F REP sw nsp (x y)^nsp ne { tag endtype extu extv (hw off)^nsp O n (x y)^n }^ne
@@ -818,8 +818,7 @@ int main(int argc, char** argv) {
         return 0;
     }
     for (auto& kp : load_corpus(argc > 4 ? argv[4] : NULL)) run_case(out, kp.first, kp.second);
-    // common.hpp's Rng gives consecutive seeds the same stream shifted by one draw: spread the seeds out
-    Rng g_(seed * 0x100000001B3ULL + 12345);
+    Rng g_(seed);
 
     // the probe behind F8: unit square repeated at (5,0) under a reference rotated by 90 degrees
     {
